@@ -167,6 +167,7 @@ class Ctx:
         self.worklist = worklist
         self.pc = []
         self.known = {}       # z3 ast id of a Py term -> node class known on this path
+        self.ghost_calls = []  # (callee term, [arg terms], result term) of opaque calls
         self.obligations = []
         self.notes = []
 
@@ -640,6 +641,10 @@ class Exec:
             for s_ in self.module_tree.body:
                 if isinstance(s_, ast.FunctionDef) and s_.name == name:
                     return Ref("inline", name, extra=s_)
+                if isinstance(s_, ast.ClassDef) and s_.name == name:
+                    return Ref("class", f"opaque::{name}")
+        if name in ("Any", "Optional", "Union", "List", "Dict", "Callable", "Type", "Iterable"):
+            return Ref("typing", name)
         raise Unsupported(f"unresolved name {name!r} (from {frm})")
 
     def lift_const(self, c):
@@ -747,8 +752,8 @@ class Exec:
 
     def ev_Subscript(self, e, env):
         v = self.ev(e.value, env)
-        if isinstance(v, Ref) and v.kind == "typing":
-            return v
+        if isinstance(v, Ref) and v.kind in ("typing", "class"):
+            return v      # Generic[...] subscription
         if isinstance(e.slice, ast.Slice):
             lo = self.ev(e.slice.lower, env) if e.slice.lower is not None else None
             hi = self.ev(e.slice.upper, env) if e.slice.upper is not None else None
@@ -1082,6 +1087,10 @@ class Exec:
     def ev_Lambda(self, e, env):
         return Opaque("lambda")
 
+    def ev_Await(self, e, env):
+        # TRUSTED model: awaiting a call runs it to completion once and yields its result
+        return self.ev(e.value, env)
+
     def ev_ListComp(self, e, env):
         return self.comprehension(e, env)
 
@@ -1194,6 +1203,14 @@ class Exec:
             return self.w.value_methods(self, f.obj, f.name, args, kw, line)
         if isinstance(f, Opaque):
             raise Unsupported(f"call of opaque {f.what}")
+        if isinstance(f, Z) and f.t.sort() == self.S.Py:
+            # call of an opaque callable value (executor, callback): recorded in the ghost call
+            # log; its result is an unconstrained fresh value
+            if kw:
+                raise Unsupported("keyword arguments in a call of a symbolic callable")
+            r = Z(self.fresh("call_result", self.S.Py), origin="result of an opaque call")
+            self.ctx.ghost_calls.append((f.t, [self.to_py(a) for a in args], r.t))
+            return r
         if isinstance(f, Z):
             raise Unsupported("call of a symbolic value")
         raise Unsupported(f"call of {f!r}")
